@@ -663,6 +663,14 @@ class Eval:
         if op in ('<<', '>>'):
             return self.shift(op, a, b, t)
         ca, cb = a.const(), b.const()
+        if op == '/' and self.mode == 'set' and ca is None and cb is not None and cb > 1 and t[0] == 'int':
+            # (whole unsigned integer parameter) / constant: bit i of the result is bit i of the QUOTIENT; the parameter
+            # then enters the layout through its code value/constant (truncating, as C++ unsigned division), with a
+            # scaled side record of resolution `constant` - the integer analogue of Add<N>ByteUDouble(v, constant)
+            name = self.whole_uint_param(a)
+            if name is not None:
+                fd = self.fields[self.fieldidx[name]]
+                return Int([('q', name, cb, i) for i in range(fd['bits'])], False).resize(t[1], t[2])
         if op in ('+', '-', '*', '/', '%') and ca is not None and cb is not None:
             if op in ('/', '%') and cb == 0:
                 return Unknown('division by zero')
@@ -1164,6 +1172,23 @@ class Eval:
                     return self.stmt(els) if els is not None else None
         return self.symbolic_if(st, then, els)
 
+    def whole_uint_param(self, v):
+        """name of the unsigned integer parameter whose unmodified value `v` is (zero-extended), else None"""
+        bits = v.bits
+        if not bits or not (isinstance(bits[0], tuple) and bits[0][0] == 'p'):
+            return None
+        name = bits[0][1]
+        fd = self.fields[self.fieldidx[name]] if name in self.fieldidx else None
+        if fd is None or fd['kind'] != 'uint':
+            return None
+        for i, b in enumerate(bits):
+            if i < fd['bits']:
+                if b != ('p', name, i):
+                    return None
+            elif b != 0:
+                return None
+        return name if len(bits) >= fd['bits'] else None
+
     def param_cond(self, cond):
         """condition over whole unsigned integer parameters -> ('cmp', op, field, const) tree, else None"""
         if cond[0] in ('and', 'or'):
@@ -1556,9 +1581,28 @@ def build_pair(world, pid, sfn, pfn, stats, S=None, known=None):
     if S:
         R['setter_ok'] = True
         R['setter_tail'] = S.tail
+        # parameters that enter the payload as a quotient (value / constant): only if that is their ONLY use, as one
+        # contiguous whole-byte field starting at bit 0 of the quotient
+        quot = {}
+        raw_used = {b[1] for b in S.payload if isinstance(b, tuple) and b[0] == 'p'}
+        for k_, b in enumerate(S.payload):
+            if isinstance(b, tuple) and b[0] == 'q':
+                quot.setdefault((b[1], b[2]), []).append((k_, b[3]))
+        qok = {}
+        for (nm_, c_), occ in quot.items():
+            off_ = occ[0][0]
+            good = (nm_ not in raw_used and sum(1 for (n2, _c) in quot if n2 == nm_) == 1 and len(occ) % 8 == 0
+                    and all(pos == off_ + j and bit == j for j, (pos, bit) in enumerate(occ)))
+            if good:
+                qok[nm_] = dict(off=off_, w=len(occ) // 8, signed=False, num=c_, exp=0, text=str(c_))
+            else:
+                R['notes'].append('setter: quotient %s/%d is not a single whole-byte field: bits not translated' % (nm_, c_))
+        R['quot_scaled'] = qok
         for b in S.payload:
             if isinstance(b, tuple) and b[0] == 'p':
                 sbits.append((idx[canon(b[1])], b[2]))
+            elif isinstance(b, tuple) and b[0] == 'q' and b[1] in qok:
+                sbits.append((idx[canon(b[1])], b[3]))
             elif b in (0, 1):
                 sbits.append(b)
             else:
@@ -1632,6 +1676,9 @@ def build_pair(world, pid, sfn, pfn, stats, S=None, known=None):
             R['notes'].append('parser translated up to: ' + P.tail)
     R['pouts'], R['opaque'], R['pscaled'] = pouts, opaque, pscaled
     R['sscaled'] = {canon(k): v for k, v in (S.scaled.items() if S else [])}
+    for k, v in R.get('quot_scaled', {}).items():
+        R['sscaled'][canon(k)] = v
+        R['notes'].append('setter: %s enters the payload as the integer quotient %s/%d (side record with resolution %d)' % (k, k, v['num'], v['num']))
     if S and S.tail:
         # the setter layout is a prefix: a field the parser reads from beyond it cannot be judged
         for n_ in list(pouts):
